@@ -800,6 +800,30 @@ func (t *FnTrans) contractCall(x *ssa.Call, callee *ssa.Function, con *Contract,
 	}
 }
 
+// structTypeByName resolves "T" (in pkg) or "alias.T" (imported by pkg) to a
+// named struct type.
+func (w *World) structTypeByName(pkg *types.Package, name string) types.Type {
+	if pkg == nil {
+		return nil
+	}
+	scope := pkg.Scope()
+	if i := strings.Index(name, "."); i >= 0 {
+		p := w.importedPkg(pkg, name[:i])
+		if p == nil {
+			return nil
+		}
+		scope, name = p.Scope(), name[i+1:]
+	}
+	tn, ok := scope.Lookup(name).(*types.TypeName)
+	if !ok {
+		return nil
+	}
+	if _, ok := tn.Type().Underlying().(*types.Struct); !ok {
+		return nil
+	}
+	return tn.Type()
+}
+
 // ghostWrites: names of the ghost components a contracted function may set:
 // its own ghostinit / site ghostsets / modifies ghost items and, transitively,
 // those of the contracted functions it calls statically.
@@ -868,6 +892,24 @@ func (t *FnTrans) havocModifies(item string, pre *Env, st *HeapState, reach stri
 		delete(st.cur, comp)
 		t.epochs++
 		st.pending[comp] = t.epochs
+		return
+	}
+	if strings.HasPrefix(item, "fieldsof(") && strings.HasSuffix(item, ")") {
+		// every field of every object of the named struct type may change
+		st2 := t.W.structTypeByName(pre.pkg, strings.TrimSpace(item[len("fieldsof("):len(item)-1]))
+		if st2 == nil {
+			t.note("modifies item %q: unknown struct type: whole heap havocked", item)
+			t.replaceState(st, t.havocAll(st))
+			return
+		}
+		prefix := "F." + typeKey(st2) + "."
+		for k := range st.cur {
+			if strings.HasPrefix(k, prefix) {
+				delete(st.cur, k)
+			}
+		}
+		t.epochs++
+		st.pendingPrefix[prefix] = t.epochs
 		return
 	}
 	if item == "allbytes" {
